@@ -445,6 +445,7 @@ def _(e, c, a, raw): return veq(e, a[0], a[1])
 @model('re:^<Cow<.*> as Deref>::deref$', 're:^<Cow<.*> as AsRef<.*>>::as_ref$', 're:^<Cow<.*> as Borrow<.*>>::borrow$')
 def _(e, c, a, raw):
     v = deref(e, a[0])
+    if isinstance(v, Str): return v          # Cow<str> collapsed to the string itself
     inner = v.slots[0]
     if isinstance(inner, Ref): return inner
     if isinstance(inner, (Str,)): return inner
@@ -452,6 +453,7 @@ def _(e, c, a, raw):
 @model('Cow::into_owned', 're:^Cow::<.*>::into_owned$', 're:^<Cow<.*> as Clone>::clone$', 'Cow::to_mut')
 def _(e, c, a, raw):
     v = deref(e, a[0])
+    if isinstance(v, Str): return v
     if c.endswith('clone'): return clone_val(e, v)
     return clone_val(e, e.deref(v.slots[0]))
 
